@@ -25,6 +25,7 @@ import McpModel.Resume.Props
 import McpModel.Resume.Witness
 import McpModel.Resume.Accept08
 import McpModel.Resume.Sound08
+import McpModel.Resume.Purge
 import McpModel.Resume.Accept10
 import McpModel.Resume.Sound10
 import McpModel.Resume.WitnessBridge
